@@ -2327,7 +2327,8 @@ class sptensor:
             updated_key = []
             for dim, entry in enumerate(key):
                 if isinstance(entry, (int, np.integer)) and entry < 0:
-                    entry = self.shape[dim] + entry  # noqa: PLW2901
+                    # Plain int: shape entries may be numpy integers
+                    entry = int(self.shape[dim] + entry)  # noqa: PLW2901
                 updated_key.append(entry)
             return self._set_subtensor(updated_key, value)
         # Case 2: Subscripts
